@@ -84,7 +84,12 @@ func normCLI(stdout string) (string, error) {
 	}
 	var ms []string
 	for k, v := range r.TxMeta {
-		ms = append(ms, "tx."+k+"="+string(v))
+		// every value is printed as a JSON string holding the value's text
+		var txt string
+		if err := json.Unmarshal(v, &txt); err != nil {
+			txt = "<not a JSON string: " + string(v) + ">"
+		}
+		ms = append(ms, "tx."+k+"="+txt)
 	}
 	for a, m := range r.AccountsMeta {
 		for k, v := range m {
@@ -259,8 +264,8 @@ func runC20(w *mc.Worker) {
 					break
 				}
 				var ms []string
-				for k, v := range lib.TxJSON {
-					ms = append(ms, "tx."+k+"="+v)
+				for k, v := range lib.TxMeta {
+					ms = append(ms, "tx."+k+"="+v) // the value's own text (String()), not its JSON encoding
 				}
 				for a, m := range lib.AcctMeta {
 					for k, v := range m {
